@@ -2,6 +2,7 @@
    Client.SetRedirectPolicy, and a specification-level driver for net/http's redirect loop
    (Go 1.23.5 client.go: via grows by one per followed hop, sticky stripSensitiveHeaders). *)
 From ReqV Require Export Model.Authority.
+From ReqV Require Export Gen.RedirectTables.   (* regenerated from redirect.go on every run *)
 
 Inductive policy :=
 | PMax (n : Z)                      (* MaxRedirectPolicy n; DefaultRedirectPolicy = PMax 10 *)
@@ -20,7 +21,7 @@ Definition mem_bytes (x : bytes) (l : list bytes) : bool := existsb (bytes_eqb x
 Definition permits (p : policy) (target : bytes) (via : list bytes) : bool :=
   let first := hd [] via in
   match p with
-  | PMax n => negb (Z.of_nat (length via) >=? n)%Z
+  | PMax n => negb (max_policy_refuses (Z.of_nat (length via)) n)
   | PNo => false
   | PSameDomain => bytes_eqb (get_domain target) (get_domain first)
   | PSameHost => bytes_eqb (get_hostname target) (get_hostname first)
@@ -31,6 +32,8 @@ Definition permits (p : policy) (target : bytes) (via : list bytes) : bool :=
   end.
 
 (* SetRedirectPolicy: first error wins = every policy must permit *)
+Definition PDefault : policy := PMax default_redirect_limit.   (* DefaultRedirectPolicy *)
+
 Definition all_permit (ps : list policy) (target : bytes) (via : list bytes) : bool :=
   forallb (fun p => permits p target via) ps.
 
